@@ -818,6 +818,7 @@ func schemaRunner(prop string, gopts SchemaGenOpts, rule string, post func(c *SC
 		if prop == "C19" && replay == "" {
 			c19IPFormats(meta)
 			c19Discriminator(meta)
+			c19ReadWriteOnly(meta)
 		}
 		if prop == "C12" && replay == "" {
 			modesWithDefaults(seed, n/4, meta)
@@ -1075,6 +1076,70 @@ func c19IPFormats(meta *Meta) {
 // C19, discriminators (Go side; the model has no discriminator): the three discriminator errors of a
 // oneOf, seen through the request validator with a reason-only message function, at the top of the
 // body and below a property - no message may repeat a string of the rejected body
+// read-only properties sent in a request, write-only ones sent in a response: whatever kind of error
+// reports them, a message made from reasons alone does not repeat the value
+func c19ReadWriteOnly(meta *Meta) {
+	const marker = "MARKERrw5Kp"
+	ro := openapi3.NewStringSchema()
+	ro.ReadOnly = true
+	wo := openapi3.NewStringSchema()
+	wo.WriteOnly = true
+	for _, nested := range []bool{false, true} {
+		// request side, through ValidateRequest with a reason-only message function
+		s := openapi3.NewObjectSchema().WithProperty("id", ro).WithProperty("name", openapi3.NewStringSchema())
+		var val any = map[string]any{"id": marker, "name": "n"}
+		if nested {
+			s = openapi3.NewObjectSchema().WithProperty("item", s)
+			val = map[string]any{"item": val}
+		}
+		meta.Histogram["read-only / write-only cases"]++
+		doc := &openapi3.T{OpenAPI: "3.0.0", Info: &openapi3.Info{Title: "t", Version: "1"}, Paths: openapi3.NewPaths()}
+		op := openapi3.NewOperation()
+		op.Responses = openapi3.NewResponses()
+		op.RequestBody = &openapi3.RequestBodyRef{Value: openapi3.NewRequestBody().WithContent(openapi3.Content{"application/json": openapi3.NewMediaType().WithSchema(s)})}
+		route := &routers.Route{Spec: doc, Path: "/r", PathItem: &openapi3.PathItem{Post: op}, Method: "POST", Operation: op}
+		body, _ := json.Marshal(val)
+		for _, multi := range []bool{false, true} {
+			req := httptest.NewRequest("POST", "/r", strings.NewReader(string(body)))
+			req.Header.Set("Content-Type", "application/json")
+			opts := &openapi3filter.Options{MultiError: multi, SkipSettingDefaults: true}
+			opts.WithCustomSchemaErrorFunc(func(e *openapi3.SchemaError) string { return e.Reason })
+			var err error
+			var msg string
+			catchPanic(func() {
+				err = openapi3filter.ValidateRequest(context.Background(), &openapi3filter.RequestValidationInput{Request: req, Route: route, Options: opts})
+				if err != nil {
+					msg = err.Error()
+				}
+			})
+			if strings.Contains(msg, marker) {
+				meta.GoViolation = append(meta.GoViolation, map[string]any{"signature": "leak", "cases": []any{map[string]any{"read_only_property_in_request": true, "below_a_property": nested, "multi_error": multi}},
+					"go_observation": msg, "judgement": "a message assembled from reasons alone repeats the value of a read-only property sent in the request: " + msg})
+			}
+		}
+		// response side, directly: VisitAsResponse with the message customizer
+		sw := openapi3.NewObjectSchema().WithProperty("pw", wo)
+		var rval any = map[string]any{"pw": marker}
+		if nested {
+			sw = openapi3.NewObjectSchema().WithProperty("item", sw)
+			rval = map[string]any{"item": rval}
+		}
+		for _, extra := range [][]openapi3.SchemaValidationOption{nil, {openapi3.MultiErrors()}} {
+			o := append([]openapi3.SchemaValidationOption{openapi3.VisitAsResponse(), openapi3.SetSchemaErrorMessageCustomizer(func(e *openapi3.SchemaError) string { return e.Reason })}, extra...)
+			var msg string
+			catchPanic(func() {
+				if err := sw.VisitJSON(rval, o...); err != nil {
+					msg = err.Error()
+				}
+			})
+			if strings.Contains(msg, marker) {
+				meta.GoViolation = append(meta.GoViolation, map[string]any{"signature": "leak", "cases": []any{map[string]any{"write_only_property_in_response": true, "below_a_property": nested}},
+					"go_observation": msg, "judgement": "a message assembled from reasons alone repeats the value of a write-only property sent in the response: " + msg})
+			}
+		}
+	}
+}
+
 func c19Discriminator(meta *Meta) {
 	cat := openapi3.NewObjectSchema().WithProperty("kind", openapi3.NewStringSchema()).WithProperty("lives", openapi3.NewIntegerSchema())
 	dog := openapi3.NewObjectSchema().WithProperty("kind", openapi3.NewStringSchema()).WithProperty("good", openapi3.NewBoolSchema())
